@@ -1061,6 +1061,7 @@ func (st *Runtime) evalAdditiveExpression(node *AdditiveExprNode) reflect.Value 
 				return reflect.ValueOf(-right.Float())
 			}
 		}
+		node.errorf("additive expression: right side %s (%s) is not a numeric value (no left side)", node.Right, getTypeString(right)) // node.Left is nil here
 		node.Left.errorf("additive expression: right side %s (%s) is not a numeric value (no left side)", node.Right, getTypeString(right))
 	}
 
